@@ -71,6 +71,8 @@ FAULTS_BY_CALL = {
     "close_w": ["EIO", "ENOSPC"],
 }
 CRASHABLE = ("open_r", "read", "stat", "getcwd", "open_w", "write", "close_w")
+# persistent conditions apply to a class of calls: reading side / writing side
+_SEAM_CLASS = {"open_r": "r", "read": "r", "stat": "r", "getcwd": "r", "open_w": "w", "write": "w", "close_w": "w"}
 
 
 class Inode:
@@ -121,6 +123,7 @@ class SimFS:
         self.plan = {}  # call_no -> fault dict
         self.fired = []  # faults that fired in the current op
         self.crashed = False  # set once SimCrash has been raised; fs goes inert
+        self.sticky = []  # persistent conditions: [(class, path or None, errno name, ops left)]
         self.open_files = []
         self.probes = {}
 
@@ -371,6 +374,8 @@ class SimFS:
 
     # -------------------------------------------------------------- fault seam
     def begin_op(self, plan) -> None:
+        # persistent conditions (disk stays full, a file stays unreadable) age per operation
+        self.sticky = [(c, p, e, n - 1) for (c, p, e, n) in self.sticky if n - 1 > 0]
         self.call_no = 0
         self.trace = []
         self.plan = dict(plan or {})
@@ -388,6 +393,14 @@ class SimFS:
         self.trace.append((n, kind, path if isinstance(path, str) else None))
         f = self.plan.get(n)
         if f is None:
+            # a persistent condition set up by an earlier sticky fault?
+            cls = _SEAM_CLASS.get(kind)
+            for (c, p, e, left) in self.sticky:
+                if c == cls and (p is None or p == path) and e in FAULTS_BY_CALL.get(kind, ()):
+                    if kind == "write":
+                        return {"kind": e, "frac": 0.0, "sticky_echo": True}
+                    self.fired.append({"call": n, "seam": kind, "kind": e, "sticky_echo": True})
+                    raise oserr(getattr(errno, e), path if isinstance(path, str) else None)
             return None
         fk = f["kind"]
         if fk == "crash":
@@ -400,6 +413,13 @@ class SimFS:
             raise SimCrash(bool(f.get("power")), "%s#%d" % (kind, n))
         if fk not in FAULTS_BY_CALL.get(kind, ()):
             return None  # not applicable to this call: does not fire
+        if f.get("sticky"):
+            # the condition persists: same path for access problems, the whole volume for space problems
+            cls = _SEAM_CLASS.get(kind)
+            whole = fk in ("ENOSPC", "EDQUOT", "EROFS", "EMFILE")
+            self.sticky.append((cls, None if whole else path, fk, int(f.get("sticky"))))
+            if cls == "w":
+                pass
         if kind == "write":
             return f
         self.fired.append({"call": n, "seam": kind, "kind": fk})
